@@ -77,6 +77,7 @@ class SeamState(object):
         self.crashed = False
         self.open_files = []
         self.extra_roots = tuple(extra_roots)
+        self.clock = None               # the StepClock of this operation, when one is running
 
     # -- event log ---------------------------------------------------------------------------
     def log(self, kind, path, site=None, **kw):
@@ -87,6 +88,8 @@ class SeamState(object):
         if kind in FAULTABLE:
             ev["io"] = self.io_index
             self.io_index += 1
+        if self.clock is not None:
+            ev["step"] = self.clock.steps
         ev.update(kw)
         self.events.append(ev)
         return ev
@@ -189,15 +192,25 @@ class SimFile(object):
         return False
 
     def _persist(self, data):
+        """Buffered data reaches the file where the real descriptor would put it: at the end for
+        append mode, from offset 0 (no truncation at this point) for w/x modes."""
         st = self._st
         st.busy += 1
         try:
-            if self._binary:
-                with REAL_OPEN(self._path, "ab") as f:
-                    f.write(data)
+            if "a" in self.mode:
+                if self._binary:
+                    with REAL_OPEN(self._path, "ab") as f:
+                        f.write(data)
+                else:
+                    with REAL_OPEN(self._path, "a", encoding=self._encoding, newline=self._newline) as f:
+                        f.write(data)
             else:
-                with REAL_OPEN(self._path, "a", encoding=self._encoding, newline=self._newline) as f:
-                    f.write(data)
+                raw = data if self._binary else data.encode(self._encoding or "utf-8")
+                if not self._binary and self._newline in (None, "\r\n") and os.linesep != "\n":
+                    raw = raw.replace(b"\n", os.linesep.encode())
+                with REAL_OPEN(self._path, "r+b") as f:
+                    f.seek(0)
+                    f.write(raw)
         finally:
             st.busy -= 1
 
@@ -509,12 +522,13 @@ def install_audit_seam():
         _hook_installed[0] = True
 
 
-def begin(world, plan=None, monitor=False):
+def begin(world, plan=None, monitor=False, clock=None):
     """Activate the seams for one operation."""
     global CUR
     install_open_seam()
     install_audit_seam()
     st = SeamState(world, plan, monitor)
+    st.clock = clock
     CUR = st
     st.active = True
     return st
